@@ -140,3 +140,4 @@ def r8(cx):
     segment into garbage at the following recovery while LATER segments still replay: a non-prefix."""
     rule_open_after_repair(cx)
     rule_append_after_validated_tail(cx)
+    rule_repair_temp_fresh(cx)
